@@ -245,7 +245,7 @@ def run_cbmc_once(o, info, backend, witness, timeout, outdir, cancel=None):
     if o.depth: cmd += ['--depth', str(o.depth)]
     cmd += ['-D' + x for x in o.cdefs]
     if witness:
-        cmd += ['-DVF_WITNESS', '--no-standard-checks', '--no-unwinding-assertions']
+        cmd += ['-DVF_WITNESS', '--no-standard-checks', '--no-unwinding-assertions', '--trace']
     else:
         cmd += ['--unwinding-assertions', '--trace']
         if o.no_checks:
@@ -341,6 +341,25 @@ def run_obligation(o, tier, outdir):
     wres, wtext = results[('w', wb)]
     rec['witness'] = dict(backend=wb, seconds=wres['seconds'], verdict=wres['verdict'],
                           reached=any(d == 'VF_WITNESS' and s == 'FAILURE' for d, s in wres['props'].values()))
+    # the witness trace is a complete run of the harness in CBMC's model: replay it on both native builds
+    rec['witness_replay'] = None
+    if rec['witness']['reached']:
+        try:
+            tr = extract_traces(wtext)
+            vals = next(iter(tr.values())) if tr else None
+            if vals is not None:
+                wpath = os.path.join(outdir, 'witness-%s.inputs' % re.sub(r'\W', '_', o.name))
+                open(wpath, 'w').write(''.join('in %d\n' % v for v in vals))
+                rcs = []
+                for exe in (build_replay(info), build_cnative(info)):
+                    try:
+                        r = subprocess.run([exe, o.fn, wpath], stdout=subprocess.PIPE, stderr=subprocess.DEVNULL, text=True, timeout=60)
+                        rcs.append((r.returncode, r.stdout.strip().split('\n')[-1][:160]))
+                    except subprocess.TimeoutExpired:
+                        rcs.append(('timeout', ''))
+                rec['witness_replay'] = rcs
+        except BuildError as e:
+            rec['witness_replay'] = [('build', str(e)[-200:])]
     best = None
     for b in o.backend:
         res, text = results[('p', b)]
@@ -478,6 +497,43 @@ def selftest(infos, outdir):
                                 why='' if ok else ('rc %s/%s\n%s\n---\n%s' % (ra.returncode, rb.returncode, ra.stdout[-300:], rb.stdout[-300:]))))
     return results
 
+DIFF_POOL = [0, 1, 2, 3, 4, 5, 7, 100, 1000, (1 << 64) - 1, (1 << 64) - 3, 1 << 20, (1 << 64) - (1 << 20), 1 << 40,
+             0x3FF0000000000000, 0xBFF0000000000000, 0x4004000000000000, 0xC059000000000000, 0x3FE0000000000000, 0x40C3880000000000]
+
+def harness_differential(obls, infos_by_variant, seed, outdir, per_harness=4):
+    """translator validation on the harnesses themselves: the clang-compiled IR (real code) and the gcc-compiled generated C
+    must behave identically (exit status and printed output) on pseudo-random input vectors. Decides nothing about a property."""
+    import random
+    rnd = random.Random(seed * 7919 + 17)
+    results = []; done = set()
+    for o in obls:
+        key = (o.variant(), o.fn)
+        if key in done: continue
+        done.add(key)
+        info = infos_by_variant.get(o.variant())
+        if info is None: continue
+        try:
+            a = build_replay(info); b = build_cnative(info)
+        except BuildError as e:
+            results.append(dict(fn=o.fn, ok=False, why=str(e)[-300:])); continue
+        for k in range(per_harness):
+            vec = [0] * 64 if k == 0 else [rnd.choice(DIFF_POOL) if rnd.random() < 0.8 else rnd.getrandbits(64) for _ in range(64)]
+            path = os.path.join(outdir, 'diff-%s-%d.inputs' % (re.sub(r'\W', '_', o.name), k))
+            open(path, 'w').write(''.join('in %d\n' % v for v in vec))
+            def runit(exe):
+                try:
+                    r = subprocess.run([exe, o.fn, path], stdout=subprocess.PIPE, stderr=subprocess.DEVNULL, text=True, timeout=30)
+                    out = re.sub(r'(VA|KNOWN):[^ ]*:(\d+) FAILED', r'\1 line \2 FAILED', r.stdout)   # same wording for both builds
+                    return r.returncode, out
+                except subprocess.TimeoutExpired:
+                    return 'timeout', ''
+            ra, rb = runit(a), runit(b)
+            # assertions that exist only in the generated C (arithmetic / lifting side conditions) may stop it earlier: not a mismatch
+            extra = rb[0] == 3 and re.search(r'REPLAY: (nsw|LIFT|IR2C|STUB)', rb[1]) is not None
+            ok = extra or ra == rb
+            results.append(dict(fn=o.fn, vector=k, ok=ok, rc=[ra[0], rb[0]], why='' if ok else (ra[1][-200:] + ' | ' + rb[1][-200:])))
+    return results
+
 def do_replay(pid, path):
     mod = load_prop(pid)
     hdr = dict(re.findall(r'^# (\w+) (.*)$', open(path).read(), re.M))
@@ -538,6 +594,14 @@ def main():
     for s in st:
         if not s['ok']:
             errors.append('translator self-test mismatch in %s %s: %s' % (s['tu'], s.get('fn'), s['why']))
+    by_variant = {}
+    for o in obls:
+        try: by_variant[o.variant()] = build_variant(o)
+        except BuildError: pass
+    hd = harness_differential(obls, by_variant, seed, outdir)
+    for h in hd:
+        if not h['ok']:
+            errors.append('translator differential mismatch in harness %s (vector %s, rc %s): %s' % (h['fn'], h.get('vector'), h.get('rc'), h['why']))
     # obligations: each uses 1 witness + len(backends) cbmc processes
     nj = jobs or max(1, 16 // 2)
     recs = []
@@ -564,6 +628,8 @@ def main():
             rec['outcome'] = dict(violations=len(oc['violations']), known=len(oc['known']), errors=oc['errors'])
         elif rec['verdict'] == 'DISAGREE':
             errors.append('%s: back ends disagree' % o.name)
+        elif rec['verdict'] == 'SUCCESS' and rec.get('witness_replay') and any(rc != 0 for rc, _ in rec['witness_replay']):
+            errors.append('%s: CBMC proved the harness but its own witness run does not complete natively (model/native mismatch): %s' % (o.name, rec['witness_replay']))
         elif rec['verdict'] == 'SUCCESS' and not rec['witness']['reached']:
             errors.append('%s: vacuity witness not reached (assumptions unsatisfiable or harness end unreachable; witness verdict %s)' % (o.name, rec['witness']['verdict']))
         rec.pop('_info', None); rec.pop('_text', None)
@@ -574,7 +640,7 @@ def main():
     for e in errors:
         log('MACHINERY-ERROR: ' + e)
     wall = time.time() - t0
-    write_evidence(pid, tier, seed, mod, recs, violations, knowns, ub_notes, errors, wall, list(infos.values()), st)
+    write_evidence(pid, tier, seed, mod, recs, violations, knowns, ub_notes, errors, wall, list(infos.values()), st, hd)
     inconc = [r['name'] for r in recs if r['verdict'] == 'INCONCLUSIVE']
     log('[%s] tier=%s obligations=%d discharged=%d inconclusive=%d violations=%d known=%d errors=%d wall=%.1fs' % (
         pid, tier, len(recs), sum(1 for r in recs if r['verdict'] == 'SUCCESS' and r['witness']['reached']), len(inconc), len(violations), len(knowns), len(errors), wall))
@@ -582,13 +648,13 @@ def main():
     if errors: return 2
     return 0
 
-def write_evidence(pid, tier, seed, mod, recs, violations, knowns, ub_notes, errors, wall, infos=(), st=()):
+def write_evidence(pid, tier, seed, mod, recs, violations, knowns, ub_notes, errors, wall, infos=(), st=(), hd=()):
     os.makedirs(os.path.join(VERIF, 'evidence'), exist_ok=True)
     meta = getattr(mod, 'META', {})
     conclusive = [r for r in recs if r['verdict'] in ('SUCCESS', 'FAILURE') and r['witness']['reached']]
     samples = [dict(obligation=r['name'], harness=r['harness'], tu=r['tu'], bound=r['bound'], what=r['desc'], unwind=r['unwind'],
                     verdict=r['verdict'], backend=r.get('backend'), solver_s=r.get('solver_s'), wall_s=r.get('seconds'),
-                    properties_checked=r.get('nprops'), witness_reached=r['witness']['reached'], runs=r['runs'],
+                    properties_checked=r.get('nprops'), witness_reached=r['witness']['reached'], witness_replayed_natively=r.get('witness_replay'), runs=r['runs'],
                     abstractions=r['replaced'], lifted_exact_double=r.get('lifted', []), why=r.get('why')) for r in recs]
     ev = dict(property_id=pid, tier=tier, seed=seed, level='model_checking',
               coverage=dict(
@@ -604,6 +670,7 @@ def write_evidence(pid, tier, seed, mod, recs, violations, knowns, ub_notes, err
                                           abstractions=i['replaced']) for i in infos],
                   solver_seconds_total=round(sum((r.get('solver_s') or 0) for r in recs), 2),
                   translator_selftests=[dict(tu=s['tu'], fn=s.get('fn'), ok=s['ok'], lines=s.get('lines')) for s in st],
+                  translator_harness_differential=dict(runs=len(hd), agreed=sum(1 for h in hd if h['ok']), completed_both=sum(1 for h in hd if h.get('rc') == [0, 0])),
                   known_findings=[k['entry'] for k in knowns], ub_notes=ub_notes, machinery_errors=errors,
                   outside_claim=meta.get('outside', []),
                   checker_cmd='cbmc 6.11.0 --unwinding-assertions (per-obligation flags in samples)'),
